@@ -638,6 +638,12 @@ func GenSchedPlan(seed uint64, idx int, prop string) *plan.SchedPlan {
 		return genHammer(p, r, uniq, k)
 	}
 	nData := r.Range(1, 3)
+	// one history in twenty is long and touches many different data: caches with
+	// a capacity, counters with a threshold, pools that fill up
+	longHistory := prop == "C13" && r.Chance(0.05)
+	if longHistory {
+		nData = r.Range(6, 16)
+	}
 	for i := 0; i < nData; i++ {
 		gens := DatumGens
 		if r.Chance(0.25) {
@@ -663,6 +669,9 @@ func GenSchedPlan(seed uint64, idx int, prop string) *plan.SchedPlan {
 		n := r.Range(1, 6)
 		if prop == "C13" {
 			n = r.Range(5, 40)
+			if longHistory {
+				n = r.Range(100, 400)
+			}
 		}
 		nLocal := 0
 		for len(ops) < n {
@@ -937,6 +946,8 @@ type schedResult struct {
 	Mutates    int       `json:"mutations"`
 	GCs        int       `json:"gcs"`
 	Errored    int       `json:"ops_errored"`
+	True       int       `json:"ops_true"`
+	False      int       `json:"ops_false"`
 	Panicked   int       `json:"ops_panicked"`
 	OrderDec   int       `json:"order_decisions"`
 	Nontrivial bool      `json:"nontrivial"`
@@ -981,6 +992,12 @@ func summarise(p *plan.SchedPlan, run *passResult, conc bool, findings []Finding
 			}
 			if rec.Out.HasErr {
 				sr.Errored++
+			} else if rec.Out.Op == "eval" && rec.Out.Panic == "" && !rec.Out.Skip {
+				if rec.Out.Bool {
+					sr.True++
+				} else {
+					sr.False++
+				}
 			}
 			if rec.Out.Panic != "" {
 				sr.Panicked++
